@@ -22,13 +22,17 @@ from .universe import Unsupported
 HINT_SETS = [
     ('int', 'str'), ('List[int]', 'Optional[UA]'), ('Dict[str, int]', 'Tuple[int, ...]'), ('Union[int, UA]', 'Set[str]'),
     ('UA', 'List[UA]'), ('Sequence[int]', 'int'), ('Literal[1, "a"]', 'Iterable[int]'), ('Type[UA]', 'Mapping[str, UA]'),
+    ('Optional[List[int]]', 'Dict[str, List[UA]]'), ('Tuple[int, str]', 'FrozenSet[int]'), ('float', 'complex'),
+    ('Deque[int]', 'KeysView[str]'), ('Union[List[int], Tuple[str, ...]]', 'UB'), ('Collection[UA]', 'Set[Optional[int]]'),
+    ('Annotated[int, IsEqual[1]]', 'Annotated[str, Is[lambda s: len(s) > 1]]'), ('UGenList[int]', 'Reversible[int]'),
 ]
 
 HEADER = '''
 from typing import *
 from dataclasses import dataclass
 from beartype import beartype, BeartypeConf
-from bearverif.userclasses import UA, UB, UC
+from bearverif.userclasses import UA, UB, UC, UGenList
+from beartype.vale import Is, IsEqual
 from bearverif.grammar import make_conf
 CONF = make_conf({confkw!r})
 D = beartype(conf=CONF)
@@ -101,7 +105,7 @@ def source(h1, h2, confkw, route):
 def cases(tier, seed):
     out = []
     confs = [{}, {'is_random': False}] if tier == 'quick' else [{}, {'is_random': False}, {'is_pep484_tower': True},
-                                                               {'violation_type': 'VerifError'}]
+                                                               {'violation_type': 'VerifError'}, {'violation_type': 'VerifWarning'}, {'strategy': 'On'}]
     sets = HINT_SETS if tier != 'quick' else HINT_SETS[:5]
     for h1, h2 in sets:
         for ckw in confs:
